@@ -18,14 +18,18 @@ Native(t) == CASE t.k \in {"var", "lit", "type", "int", "bool", "true", "false"}
 KwTok(k) == CASE k = "type" -> "TYPE" [] k = "int" -> "INTEGER" [] k = "bool" -> "BOOLEAN" [] k = "true" -> "TRUE" [] k = "false" -> "FALSE"
 HoleA == [k |-> "hole"]
 R(toks, ast) == [toks |-> toks, ast |-> ast]
-RECURSIVE UP(_,_,_), Body(_,_), LetParts(_,_)
+RECURSIVE UPm(_,_,_,_), Body(_,_,_), LetParts(_,_)
 \* t.np ("no parentheses"): the parentheses the grammar REQUIRES around this node are left out -- the result is either not a
 \* sentence or a sentence with another tree; used to probe over-acceptance beyond the token bound of the exhaustive check
 \* every syntax-tree node also carries sp = <<first, last>>: the token positions of its own text (without parentheses
 \* written around it) -- what its source range must cover (C15)
-UP(t, req, off) == IF (t.p \/ Native(t) > req) /\ ~t.np
-                   THEN LET r == Body(t, off + 1) IN R(<<"LEFT_PAREN">> \o r.toks \o <<"RIGHT_PAREN">>, r.ast @@ ("sp" :> <<off + 2, off + 1 + Len(r.toks)>>))
-                   ELSE LET r == Body(t, off) IN R(r.toks, r.ast @@ ("sp" :> <<off + 1, off + Len(r.toks)>>))
+\* mid: t is the unparenthesised LEFT operand of a `* /` node, so t's own right operand is followed by more of the chain.  Only the
+\* LAST operand of a `* /` chain may be a bare negation (small_term OP large_term, and a negation takes everything to its right that
+\* a large_term can hold): `a * - b * c` is a * (-(b * c)), and (a * (-b)) * c needs its parentheses.
+UPm(t, req, off, mid) == IF (t.p \/ Native(t) > req) /\ ~t.np
+                   THEN LET r == Body(t, off + 1, FALSE) IN R(<<"LEFT_PAREN">> \o r.toks \o <<"RIGHT_PAREN">>, r.ast @@ ("sp" :> <<off + 2, off + 1 + Len(r.toks)>>))
+                   ELSE LET r == Body(t, off, mid) IN R(r.toks, r.ast @@ ("sp" :> <<off + 1, off + Len(r.toks)>>))
+UP(t, req, off) == UPm(t, req, off, FALSE)
 \* the definitions of the group that starts at t and its body; an unparenthesised let in body position joins the group
 LetParts(t, off) ==
   LET an == IF t.ann THEN UP(t.a, 2, off + 2) ELSE R(<<>>, HoleA)
@@ -37,15 +41,15 @@ LetParts(t, off) ==
   IN IF t.b.k = "let" /\ ~t.b.p
      THEN LET rest == LetParts(t.b, o2) IN [toks |-> head \o rest.toks, defs |-> <<def>> \o rest.defs, b |-> rest.b]
      ELSE LET b == UP(t.b, 8, o2) IN [toks |-> head \o b.toks, defs |-> <<def>>, b |-> b.ast]
-Body(t, off) ==
+Body(t, off, mid) ==
   CASE t.k = "var" -> R(<<"IDENTIFIER">>, [k |-> "var", p |-> off + 1])
     [] t.k = "lit" -> R(<<"INTEGER_LITERAL">>, [k |-> "lit", p |-> off + 1])
     [] t.k \in {"type", "int", "bool", "true", "false"} -> R(<<KwTok(t.k)>>, [k |-> t.k])
     [] t.k = "app" -> LET l == UP(t.a, 2, off)  r == UP(t.b, 1, off + Len(l.toks)) IN R(l.toks \o r.toks, [k |-> "app", a |-> l.ast, b |-> r.ast])
     [] t.k = "neg" -> LET a == UP(t.a, 4, off + 1) IN R(<<"MINUS">> \o a.toks, [k |-> "neg", a |-> a.ast])
     [] t.k = "bin" ->
-         LET lr == CASE t.op \in {"prod", "quot"} -> <<3, 2>> [] t.op \in {"sum", "diff"} -> <<5, 4>> [] OTHER -> <<5, 5>>
-             l == UP(t.a, lr[1], off)  r == UP(t.b, lr[2], off + Len(l.toks) + 1)
+         LET lr == CASE t.op \in {"prod", "quot"} -> <<3, IF mid \/ t.b.k # "neg" THEN 2 ELSE 4>> [] t.op \in {"sum", "diff"} -> <<5, 4>> [] OTHER -> <<5, 5>>
+             l == UPm(t.a, lr[1], off, t.op \in {"prod", "quot"})  r == UP(t.b, lr[2], off + Len(l.toks) + 1)
          IN R(l.toks \o <<OpTok(t.op)>> \o r.toks, [k |-> "bin", op |-> t.op, a |-> l.ast, b |-> r.ast])
     [] t.k \in {"lam", "pi"} ->
          LET arrow == IF t.k = "lam" THEN "THICK_ARROW" ELSE "THIN_ARROW"
